@@ -224,7 +224,8 @@ def explore(fn: Callable, params: Dict[str, Any], argspec: List[Tuple[str, Any]]
   t0 = process_time()
   w0 = time.time()
   with Patched():
-    while stats['paths'] < max_paths and process_time() - t0 < budget_s:
+    # the budget is CPU time; on an oversubscribed machine the wall-clock guard ends the shard (as INCOMPLETE) instead
+    while stats['paths'] < max_paths and process_time() - t0 < budget_s and time.time() - w0 < budget_s * 4 + 60:
       stats['paths'] += 1
       start = process_time()
       space = StateSpace(execution_deadline=start + per_path_s,
